@@ -371,10 +371,13 @@ def webvtt_strategy(tier):
             # layout; a layout-less node BEFORE a positioned one has no specified cue
             trailing_none = draw(st.integers(0, nn - 1)) if explicit and draw(st.integers(0, 2)) == 0 else 0
             for k in range(nn):
-                if k:
-                    nodes.append({"br": 1, "layout": None})
                 positioned = explicit and k < nn - trailing_none
-                nodes.append({"t": f"c{ci}n{k}", "layout": draw(pick) if positioned else None})
+                lay_k = draw(pick) if positioned else None
+                if k:
+                    # a line break may carry a layout of its own (readers give it the layout of
+                    # the text around it); it has no characters, so it decides nothing
+                    nodes.append({"br": 1, "layout": draw(st.sampled_from([None, None, lay_k, draw(pick)]))})
+                nodes.append({"t": f"c{ci}n{k}", "layout": lay_k})
             cues.append({"start": 1000000 * (ci + 1), "end": 1000000 * (ci + 1) + 900000,
                          "nodes": nodes, "style": {}, "layout": lc})
         # a second language with a language-level layout of its own, listed before or after the
